@@ -29,7 +29,7 @@ type clientCase struct {
 	Queries []msgspec.Spec // 1..4 queries sent over the same Conn, one after the other
 	Key     int
 	Fudge   uint16
-	Reply   []string // per query: good, tampered, norequestmac, late, wrongsecret, unsigned
+	Reply   []string // per query: good, tampered, norequestmac, late, wrongsecret, unsigned, unsignederr (error BADSIG / BADKEY and no MAC), ...
 	FlipBit int
 }
 
@@ -122,6 +122,11 @@ func checkClient(c clientCase) error {
 		var reply []byte
 		if variant == "unsigned" {
 			reply = rp
+		} else if variant == "unsignederr" {
+			// what anyone can write without a key: a TSIG naming the key, error BADSIG / BADKEY, no MAC,
+			// the current time (RFC 8945 5.3.2: such an answer MUST be treated as unauthenticated)
+			t.Error = 16 + uint16(c.FlipBit&1)
+			reply = t.AppendTo(rp)
 		} else {
 			var serr error
 			if reply, _, serr = ref.TsigSign(rp, t, secret, useMAC, false); serr != nil {
@@ -179,7 +184,7 @@ func genClient(t *rapid.T) clientCase {
 		}
 		s.Question = s.Question[:1]
 		c.Queries = append(c.Queries, s)
-		c.Reply = append(c.Reply, rapid.SampledFrom([]string{"good", "good", "good", "tampered", "norequestmac", "late", "wrongsecret", "unknownkey-emptysecret", "unsigned", "ancestorkey"}).Draw(t, "reply"))
+		c.Reply = append(c.Reply, rapid.SampledFrom([]string{"good", "good", "good", "tampered", "norequestmac", "late", "wrongsecret", "unknownkey-emptysecret", "unsigned", "ancestorkey", "unsignederr"}).Draw(t, "reply"))
 	}
 	c.Key = rapid.IntRange(0, len(e2eKeys)-1).Draw(t, "key")
 	c.Fudge = rapid.Uint16Range(300, 65535).Draw(t, "fudge")
